@@ -160,6 +160,9 @@ func (g *gatedSubmitter) SubmitToLog(ctx context.Context, logURL string, chain [
 	if v.(string) == "err" {
 		return nil, errors.New("log says no")
 	}
+	if v.(string) == "nilnil" {
+		return nil, nil // a misbehaving client: neither an SCT nor an error
+	}
 	sct := &ct.SignedCertificateTimestamp{SCTVersion: ct.V1, LogID: ct.LogID{KeyID: sha256.Sum256([]byte(logURL))}, Timestamp: 42}
 	g.mu.Lock()
 	g.scts[logURL] = sct
@@ -182,6 +185,38 @@ func runScenario(sc scenario) func(t *testing.T, x *gate.Exec) {
 				return
 			}
 		}
+		// a weight update that is refused (one weight negative) leaves the group as it was: same session, same logs
+		for name, want := range sc.Sessions {
+			bad := map[string]float32{}
+			for i, u := range want {
+				bad[u] = float32(len(want) - i)
+			}
+			bad[want[len(want)-1]] = -1
+			if err := groups[name].SetLogWeights(bad); err == nil {
+				x.Violation("negative-log-weight-accepted", "%v: group %s accepted weights %v", sc, name, bad)
+				return
+			}
+			// (only membership is demanded: a log that drops out of the session can no longer be asked, which is
+			// what breaks "enough compatible logs answer => success"; the order is re-forced below)
+			got := append([]string{}, groups[name].GetSubmissionSession()...)
+			ws := append([]string{}, want...)
+			sort.Strings(got)
+			sort.Strings(ws)
+			if strings.Join(got, ",") != strings.Join(ws, ",") {
+				x.Violation("refused-weight-update-drops-logs-from-the-group", "%v: group %s: session %v before, %v after a refused SetLogWeights(%v)", sc, name, want, groups[name].GetSubmissionSession(), bad)
+				return
+			}
+			w := map[string]float32{}
+			cur := float32(1e32)
+			for _, u := range want {
+				w[u] = cur
+				cur /= 1e8
+			}
+			if err := groups[name].SetLogWeights(w); err != nil {
+				x.Violation("harness", "re-forcing the session: %v", err)
+				return
+			}
+		}
 		env := gate.NewEnv()
 		sub := &gatedSubmitter{env: env, calls: map[string]int{}, scts: map[string]*ct.SignedCertificateTimestamp{}}
 		ctx, cancel := context.WithCancel(context.Background())
@@ -191,6 +226,7 @@ func runScenario(sc scenario) func(t *testing.T, x *gate.Exec) {
 		var res []*submission.AssignedSCT
 		var resErr error
 		var retAt time.Duration
+		nilled := map[string]bool{} // logs whose client answered (nil, nil)
 		go func() {
 			r, e := submission.GetSCTs(ctx, sub, []ct.ASN1Cert{{Data: certs[sc.BaseMin].Raw}}, false, groups)
 			mu.Lock()
@@ -231,6 +267,10 @@ func runScenario(sc scenario) func(t *testing.T, x *gate.Exec) {
 				}
 				n++
 				add(p.Key+" <- "+o, c, func() { env.Answer(p, o) })
+				if o == "sct" {
+					// the client hands back neither an SCT nor an error: that is not an SCT
+					add(p.Key+" <- (nil, nil)", c+1, func() { nilled[u] = true; env.Answer(p, "nilnil") })
+				}
 			}
 			if n > 0 {
 				add("logs slow 1.5s", 1, func() { time.Sleep(1500 * time.Millisecond) })
@@ -309,7 +349,7 @@ func runScenario(sc scenario) func(t *testing.T, x *gate.Exec) {
 		}
 		willing := map[string]bool{}
 		for u, o := range sc.Outcome {
-			if o == "sct" {
+			if o == "sct" && !nilled[u] {
 				willing[u] = true
 			}
 		}
@@ -450,7 +490,7 @@ func TestCheck(t *testing.T) {
 			scs[i].Bound = 2
 		}
 	}
-	r.Rule("scenario = policy (Chrome 2+2 and 1+2 logs, Apple 3 logs) x base minimum 2/3 (via certificate lifetime) x every forced session order of every group without same-instant ties x every per-log outcome in {SCT, error, hang}; per scenario every choice vector within the deviation bound over: which pending submission is answered next, logs answering 1.5 s late, caller cancellation at any point. distinct_nontrivial = distinct (scenario, returned SCT set, error, cancelled) outcomes")
+	r.Rule("scenario = policy (Chrome 2+2 and 1+2 logs, Apple 3 logs) x base minimum 2/3 (via certificate lifetime) x every forced session order of every group without same-instant ties x every per-log outcome in {SCT, error, hang}; per scenario every choice vector within the deviation bound over: which pending submission is answered next (an SCT answer may also come back as (nil, nil) from a misbehaving client), logs answering 1.5 s late, caller cancellation at any point. distinct_nontrivial = distinct (scenario, returned SCT set, error, cancelled) outcomes")
 	r.Assume("session orders are forced through the public SetLogWeights API (weights 1e32, 1e24, ...); a wrong pick needs rand.Float32() < 1e-8 and is detected",
 		"session combinations in which two group races try the same log at the same virtual instant are excluded: the winner of such a tie is decided by the Go scheduler between two gate-free steps, which this engine does not enumerate",
 		"a hanging log blocks until its context is cancelled; when only hung submissions remain for 600 s the caller gives up")
